@@ -41,6 +41,18 @@ def _case(draw):
         doc['items'] = [kv for kv in doc['items'] if kv[0] not in ('ub', 'uy', 'uz')] + [
             ['ub', tdoc.mp([('x', data)], unsafe=True, mdstyle='short')], ['uy', copy_place],
             ['uz', tdoc.mp([('v', tdoc.raw('uy', '!xref'))], flow=True, tag='!call:vfrec.call_91')]]
+    if structural and draw(st.integers(0, 2)) == 0:
+        # the same with a structural node (an include / !prev / !append / !extend / !clear acts where it stands, so every copy of it
+        # carries its own flags): the copy below the safe mapping is written with a metadata suffix, which the loader has to read back
+        data = draw(st.sampled_from([tdoc.raw('inc_a.yaml', '!include'), tdoc.raw('a', '!prev'), tdoc.sq([tdoc.sc(3)], flow=True, tag='!append'),
+                                     tdoc.sq([tdoc.sc(4)], flow=True, tag='!extend'), {'t': 'empty', 'tag': '!clear'},
+                                     tdoc.sq([tdoc.sc('inc_a.yaml'), tdoc.sc('inc_b.yaml')], flow=True, tag='!include')]))
+        data = dict(data, anchor='us')
+        al = {'t': 'alias', 'name': 'us'}
+        places = [['uq', tdoc.mp([('x', data)], unsafe=True, mdstyle='short')], ['ur', tdoc.mp([('y', al)])]]
+        if draw(st.booleans()):
+            places = [['ur', tdoc.mp([('y', data)])], ['uq', tdoc.mp([('x', al)], unsafe=True, mdstyle='short')]]
+        doc['items'] = [kv for kv in doc['items'] if kv[0] not in ('uq', 'ur')] + places
     pre = draw(st.lists(S.tagged_stages(min_stages=1, max_stages=1, keys=S.MERGE_KEYS_NONEG, neg=False, density=3).map(lambda l: l[0]), max_size=2))
     post = draw(st.lists(S.tagged_stages(min_stages=1, max_stages=1, keys=S.MERGE_KEYS_NONEG, neg=False, density=3, notnew=True).map(lambda l: l[0]), max_size=2))
     return {'doc': doc, 'pre': pre, 'post': post, 'structural': structural}
